@@ -591,7 +591,7 @@ Qed.
 
 Lemma probe_same_refl o : probe_same o o = true.
 Proof.
-  destruct o as [|c]; [reflexivity|]. cbn. destruct (kget c wkey) as [[v s]|]; [|reflexivity].
+  destruct o as [|c]; [reflexivity|]. unfold probe_same. destruct (kget c wkey) as [[v s]|]; [|reflexivity].
   cbn. rewrite value_eqb_refl. now destruct s.
 Qed.
 
